@@ -44,7 +44,7 @@ Section Loop.
     (forall d, In d (snd (cb c it)) -> d <= fst it) /\ J (fst (cb c it)) (fst it + 1).
 
   Definition todo (m : amap V) (next : Z) : amap V := filter (in_range next range_end) m.
-  Notation step := (step_item cb).
+  Notation step := (step_item cb no_rw).
 
   Definition fst3 {X Y W} (t : X * Y * W) : X := fst (fst t).
   Definition snd3 {X Y W} (t : X * Y * W) : Y := snd (fst t).
@@ -184,7 +184,7 @@ Section Loop.
   Theorem page_loop_spec : forall fuel m next limit call c acc lo0,
     sorted_from lo0 m -> 0 <= next -> J c next -> 1 <= limit ->
     (length (todo m next) + Z.to_nat (Z.log2 limit) < fuel)%nat ->
-    let res := page_loop fails cb min_limit fuel m next limit call c acc in
+    let res := page_loop fails cb no_rw min_limit fuel m next limit call c acc in
     fst (fst (fst res)) <> RDiverged /\
     (fst (fst (fst res)) = RDone ->
        snd (fst (fst res)) = acc ++ todo m next /\ (snd (fst res), snd res) = final m c (todo m next)) /\
